@@ -391,3 +391,38 @@ def run_S45(chk):
     ms = [c for c in A.calls(sv.node) if A.call_name(c) == "_meta_svd"]
     ok = ms and [A.text(a) for a in ms[0].args][-2:] == ["sU", "nU"]
     chk.verdict("S5", (sv, ms[0] if ms else sv.node), ms[0] if ms else "_meta_svd", True if ok else False, "svd(): sU and nU do not reach _meta_svd")
+
+
+# ------------------------------------------------ CK1 leg-sector charges carry the signature of their leg
+def run_CK1(chk, rule, modules, floor_sites=0):
+    """A sector charge read from a Leg (`<leg>.t[i]`) is only meaningful together with the signature of that leg: the
+    tensor-charge convention is n = sum_i s_i t_i.  Every `sym.add_charges(...)` call with such an argument must pass
+    `signatures=` whose entry at that position reads `<leg>.s` of the same leg expression (possibly negated)."""
+    prog = chk.prog
+    n = 0
+    for mname in modules:
+        prog.module(mname)
+    if True:
+        for f in prog.all_funcs(set(modules)):
+            for c in A.calls(f.node):
+                if A.callee_attr(c) != "add_charges":
+                    continue
+                sig = A.kwarg(c, "signatures")
+                for i, a in enumerate(c.args):
+                    if not (isinstance(a, ast.Subscript) and isinstance(a.value, ast.Attribute) and a.value.attr == "t"):
+                        continue
+                    leg = A.text(a.value.value)
+                    if leg.endswith("struct"):
+                        continue      # native block charges of a tensor: handled by the S-rules
+                    n += 1
+                    ok = False
+                    if isinstance(sig, (ast.Tuple, ast.List)) and i < len(sig.elts):
+                        e = sig.elts[i]
+                        ok = any(isinstance(x, ast.Attribute) and x.attr == "s" and A.text(x.value) == leg for x in ast.walk(e))
+                    chk.verdict(rule, (f, c), c, True if ok else False,
+                                f"{f.short}: the sector charge `{A.text(a)}` is added without the signature `{leg}.s` of the leg it was read "
+                                f"from: the resulting tensor charge has the wrong sign whenever that leg has signature -1 relative to the "
+                                f"default (e.g. after conj()/H) and the charge is not its own inverse (U1, Z3, ...); the boundary tensor is then "
+                                f"created in an empty sector and overlaps evaluate to 0")
+    chk.require(n >= floor_sites, f"{rule}: {n} add_charges sites with a leg-sector argument found (>= {floor_sites} confirmed by hand)")
+    return n
